@@ -29,6 +29,11 @@ Proof. exact setconst_canonical_ok. Qed.
 Theorem C03_current_source_scope_not_order_dependent : scope_follows_memento_fn = Some true.
 Proof. exact scope_follows_memento_fn_ok. Qed.
 
+(** the model identifies a rule by (kind, parent, target symbol); the current source gives distinct helper
+    functions distinct keys also when they are lambdas, which all share the qualified name "<lambda>" *)
+Theorem C03_current_source_keys_tell_anonymous_helpers_apart : anonymous_helpers_distinct = Some true.
+Proof. exact anonymous_helpers_distinct_ok. Qed.
+
 Example C03_witness :
   let mk k c refs := {| s_kind := k; s_code := c; s_defaults := 0; s_refs := refs |} in
   let p := table [(0, mk (SMemento None) 10 [1; 2; 3]); (1, mk (SPlain true) 11 [2]); (2, mk (SMemento None) 12 [0]); (3, mk (SVar (Some 7)) 0 [])] in
